@@ -1684,6 +1684,9 @@ char* save_variable (svalue_t * var) {
 
   save_svalue_depth = 0;
   theSize = svalue_save_size (var);
+  /* the result is an LPC string like any other (nothing is allocated yet) */
+  if (theSize - 1 > (size_t) CONFIG_INT (__MAX_STRING_LENGTH__))
+    error ("*Maximum string length exceeded in save_variable().");
   new_str = new_string (theSize - 1, "save_variable");
   *new_str = '\0';
   p = new_str;
